@@ -490,12 +490,14 @@ class HistoryHarness(ex.Harness):
                 lib = {}
                 for wd_, path in ino_obj._path_for_wd.items():
                     lib[wd_] = os.fsdecode(path[len(Rb) + 1:]) if path != Rb else ""
-                rows = []
+                row = {}
                 for wd_ in sorted(set(kernel) | set(lib)):
-                    rows.append((lib.get(wd_, "<none>"), by_ino.get(kernel.get(wd_), "<gone>") if wd_ in kernel else "<no-kernel-watch>"))
-                stale = sorted(os.fsdecode(p[len(Rb) + 1:]) if p != Rb else "" for p, w in ino_obj._wd_for_path.items()
-                               if ino_obj._path_for_wd.get(w) != p)
-                out.append((tuple(sorted(rows)), tuple(stale)))
+                    row[wd_] = (lib.get(wd_, "<none>"),
+                                by_ino.get(kernel.get(wd_), "<gone>") if wd_ in kernel else "<no-kernel-watch>")
+                # both directions of the library's map, without the (history dependent) wd numbers
+                fwd = sorted(((os.fsdecode(p[len(Rb) + 1:]) if p != Rb else ""), row.get(w, ("<none>", "<unknown-wd>")))
+                             for p, w in ino_obj._wd_for_path.items())
+                out.append((tuple(sorted(row.values())), tuple(fwd)))
             return tuple(out)
         except Exception as e:  # noqa: BLE001 - introspection is best effort; fall back to no merging
             return ("unavailable", type(e).__name__)
@@ -768,10 +770,17 @@ def provenance(path, hist):
         if hit:
             chain.append((hit, pace))
     chain.reverse()
-    if origin in ("mkdir", "makedirs") and len(chain) > 1:
-        # renamed before the creation had been drained?
-        i0 = next(i for i, (op, _) in enumerate(ops) if op[0] == origin and (op[1] == p or parent(op[1]) == p))
-        for op, pace in ops[i0:]:
+    if origin != "initial" and len(chain) > 1:
+        # was it (or an ancestor) renamed before its arrival had been drained?
+        seen_origin = False
+        for op, pace in ops:
+            if not seen_origin:
+                if op[0] == origin and (op[1] == p or (origin == "makedirs" and parent(op[1]) == p)
+                                        or (origin == "move_in_dir" and inside(p, op[1]))):
+                    seen_origin = True
+                    if pace in ("drain", "drain-soft"):
+                        break
+                continue
             if op[0] == "rename":
                 renamed_undrained = True
                 break
@@ -783,10 +792,28 @@ def provenance(path, hist):
 def classify_dir(path, hist):
     origin, undrained, chain = provenance(path, hist)
     if origin == "move_in_dir":
+        if undrained:
+            return "directory moved in and renamed (itself or an ancestor) before its arrival was processed is not watched"
         return "directory moved in from outside the tree is not watched"
     if origin in ("mkdir", "makedirs") and undrained:
-        return "directory created and renamed before its creation was processed is not watched"
+        own = any(k == "rename" for k, _ in chain[1:]) and _own_rename(path, hist)
+        if own:
+            return "directory created and renamed before its creation was processed is not watched"
+        return "directory created below a directory that was renamed before the creation was processed is not watched"
     return "dir-provenance=" + ">".join(f"{k}|{p}" for k, p in chain) if chain else "dir-provenance=initial"
+
+
+def _own_rename(path, hist):
+    """Did the first rename after the creation rename the directory itself (not an ancestor)?"""
+    p = path
+    first = None
+    for op, _ in reversed(list(hist)):
+        if op[0] == "rename" and (p == op[2] or inside(p, op[2])):
+            first = (p == op[2])
+            p = op[1] + p[len(op[2]):]
+        elif op[0] in ("mkdir", "makedirs") and (p == op[1] or p == parent(op[1])):
+            break
+    return bool(first)
 
 
 def classify(v, tree0, hist, cfg):
@@ -889,3 +916,32 @@ def deviation_search(ctx, checks, *, tier, respect_pacing, root_delete=False, ma
         jobs = jobs[:max_jobs]
     ctx.explore_many(jobs, cap=150_000 if q else 5_000_000, selftest=False,
                      workers=max(ctx.workers, 4 * (os.cpu_count() or 4)))
+
+
+def check_alive_and_reported(h, res):
+    """C07 oracle: monitoring does not die - no library thread ends with an error, and a later change in every
+    existing directory is still reported (by name; the path is C02's business); root deletion is reported once
+    and stops the emitter."""
+    out = []
+    v = res.value
+    if v is None or res.errors:
+        return out          # thread errors are reported by base_check (root cause)
+    if v["root_gone"]:
+        n = sum(1 for e in v["events"] if e[1] == "DirDeletedEvent" and e[2] == "")
+        if n != 1:
+            out.append(dict(kind="root-delete-count", msg=f"{n} DirDeletedEvent(root) delivered after the root was "
+                                                          f"deleted (expected exactly 1); history={h.name}; events={v['events']}",
+                            fp=f"root-delete-count={min(n, 2)}"))
+        if any(v["emitter_alive"]):
+            out.append(dict(kind="emitter-alive-after-root-delete", msg=f"emitter thread still alive after root deletion; "
+                                                                      f"history={h.name}", fp="emitter-alive-after-root-delete"))
+        return out
+    names = {e[2].rsplit("/", 1)[-1] for e in v["probe_events"] if e[1] == "FileCreatedEvent" and e[2]}
+    for d, p in v["probes"].items():
+        if (h.cfg.recursive or d == "") and p.rsplit("/", 1)[-1] not in names:
+            out.append(dict(kind="change-unreported", msg=f"after the history a file created in directory '{d}' was not "
+                                                          f"reported at all; history={h.name}; bookkeeping={v['book']}",
+                            fp="probe-missing", detail=dict(dir=d)))
+    if v["shim_violations"]:
+        out.append(dict(kind="fd-misuse", msg=f"{v['shim_violations']}; history={h.name}", fp="fd-misuse " + v["shim_violations"][0][0]))
+    return out
